@@ -189,7 +189,14 @@ class Solver:
             return "self" if (tk == "local" and e[1] == ti) else None
         if k == "phi":
             cs = {self.canon(body, tracked, x, depth + 1) for x in e[1]}
-            return cs.pop() if len(cs) == 1 else None
+            if len(cs) == 1:
+                return cs.pop()
+            # `if heap_or_static { self.0 as *mut u8 } else { self as *mut _ as *mut u8 }`: a pointer
+            # that is the storage pointer on some arm is judged as the storage pointer
+            for c in ("bufptr", "alloc", "derived", "header"):
+                if c in cs and cs <= {c, "self", None}:
+                    return c
+            return None
         if k in ("ref", "rawptr"):
             return self.canon(body, tracked, e[2], depth + 1)
         if k == "deref":
@@ -229,7 +236,7 @@ class Solver:
             n = callee_name(t)
             args = [body.origin_operand(a) for a in t["args"]]
             a0 = self.canon(body, tracked, args[0], depth + 1) if args else None
-            if n in VIEW_FNS and a0 == "self":
+            if a0 == "self" and (n in VIEW_FNS or self._view_kind(body, t, n)):
                 return "self"
             # what the result points to decides what it is, whatever the accessor is called: the
             # header of this handle's allocation, or the reference counter inside it
@@ -576,10 +583,16 @@ class Solver:
                     out.add(t._replace(kind=k, uniq=u, ref="own", acq=False, asg=True, dirty=t.dirty or not vp))
             return out
         if partial:
+            c0 = self.canon(body, tracked, lhs_e)
             for t in cur:
                 if t.ref in ("rel", "notlast", "freed"):
                     self.ob("R1", body, "field-write#%d" % self._assign_ord(body, bb, si), s.get("line", 0), False,
                             detail="handle field written in state ref=%s" % t.ref)
+                if c0 in ("bufptr", "alloc", "derived") and t.kind in ("S", "H"):
+                    # `*ptr.add(i) = byte`: a raw store through the storage pointer
+                    good = t.kind == "H" and t.ref == "own" and t.uniq
+                    self.ob("R-contract.write", body, "store#%d" % self._assign_ord(body, bb, si), s.get("line", 0), good, how="raw store into exclusively owned heap storage",
+                            detail="a store through the handle's storage pointer in state kind=%s uniq=%s ref=%s: the bytes are %s" % (t.kind, t.uniq, t.ref, "borrowed static text" if t.kind == "S" else "shared with other handles"))
                 out.add(t._replace(dirty=True))
             return out
         return cur
@@ -738,6 +751,31 @@ class Solver:
             pass
         elif k == "drop":
             cur2 = self._drop_guard(body, tracked, bb, t, cur)
+            if t.get("local_drops") and t["pl"]["p"]:
+                # `*self = value` on a type with drop glue is drop-then-write: the old value's own
+                # Drop impl runs here on the tracked handle
+                pl = t["pl"]
+                base = ("param", pl["l"]) if (tracked[0] == "param" and pl["l"] == tracked[1]) else body.origin_local(pl["l"])
+                pe = body._apply_proj(base, pl["p"], ())
+                if self.canon(body, tracked, pe) == "self":
+                    nxt = set()
+                    for dk in t["local_drops"]:
+                        db = self.F.bodies.get(dk)
+                        if db is None:
+                            continue
+                        for s0 in cur2:
+                            self.ctx_stack.append(body.path)
+                            self.pclass_stack.append(())
+                            try:
+                                res = self.summary(db, ("param", 1), s0)
+                            finally:
+                                self.ctx_stack.pop()
+                                self.pclass_stack.pop()
+                            for cls, s2 in res:
+                                if isinstance(cls, str) and cls.startswith("unwind"):
+                                    continue
+                                nxt.add(s0._replace(kind=s2.kind, uniq=s2.uniq, ref=s2.ref, acq=s2.acq, inc=s2.inc, asg=True, dirty=True))
+                    cur2 = nxt or cur2
             add(t["target"], cur2)
             if isinstance(t["unwind"], int):
                 add(t["unwind"], cur2)
@@ -957,15 +995,24 @@ class Solver:
         dest = t["dest"]
         dest_is_self = (not dest["p"] and tracked[0] == "local" and dest["l"] == tracked[1])
         if cur:
-            will_descend = bool([c for c in can if c == "self"]) and bool(t.get("local_key")) and n not in VIEW_FNS
+            will_descend = bool([c for c in can if c == "self"]) and bool(t.get("local_key")) and not self._view_kind(body, t, n)
             kinds = "".join(sorted({s.kind for s in cur}))
             self.events_stack[-1].add((body.path, site, n, t.get("local_key"), will_descend, line, kinds, t.get("inst_crate") or t.get("callee_crate")))
             for m in t.get("mono_calls", []):
                 self.events_stack[-1].add((body.path, site + "/mono", m["inst_def"], m.get("local_key"), False, line, kinds, m.get("inst_crate")))
 
+        in_debug = bb in body.debug_only_blocks()
+        cur0 = set(cur)
+
         def finish(states):
             """route to the return block (and note tail-call result class)"""
             if tgt is None:
+                return
+            if in_debug and not dest0 and not dest_is_self:
+                # a call that exists only under debug assertions (`debug_assert!(self.is_unique())`)
+                # checks, it does not establish: what it would tell about the state is not carried on
+                # (the obligations inside it were still recorded)
+                add(tgt, {x._replace(facts=frozenset(f for f in x.facts if f[0] != bb)) for x in cur0})
                 return
             if dest_is_self:
                 kinds, vp, desc = self.classify_new_value(body, tracked, ("call", bb))
@@ -1092,6 +1139,12 @@ class Solver:
                 for s in cur:
                     if s.ref in ("rel", "notlast", "freed"):
                         self.ob("R1", body, site, line, False, detail="write into the buffer in state ref=%s" % s.ref)
+                    if can[di] in ("bufptr", "alloc", "derived", "header") and s.kind in ("S", "H"):
+                        # a raw write through the storage pointer: the bytes belong to every handle that
+                        # shares them (or to the program's static data)
+                        good = s.kind == "H" and s.ref == "own" and s.uniq
+                        self.ob("R-contract.write", body, site, line, good, how="raw write into exclusively owned heap storage",
+                                detail="%s writes through the handle's storage pointer in state kind=%s uniq=%s ref=%s: the bytes are %s" % (n, s.kind, s.uniq, s.ref, "borrowed static text" if s.kind == "S" else "shared with other handles"))
                     out.add(s._replace(dirty=True))
                 finish(out)
                 return
@@ -1122,12 +1175,19 @@ class Solver:
             finish(out)
             return
 
-        # ---- is_len_on_heap fact
-        if n == "repr::heap_buffer::HeapBuffer::is_len_on_heap" and can and can[0] == "self":
+        # ---- is_len_on_heap fact (asked of the buffer, or of its length word directly)
+        lenq = n == "repr::heap_buffer::HeapBuffer::is_len_on_heap" and can and can[0] == "self"
+        if not lenq and n == "repr::heap_buffer::internal::TextLen::is_heap" and args:
+            a0 = strip_refs(args[0])
+            while a0[0] in ("ref", "rawptr", "deref"):
+                a0 = strip_refs(a0[2] if a0[0] != "deref" else a0[1])
+            lenq = a0[0] == "field" and self.canon(body, tracked, a0[1]) == "self"
+        if lenq:
             out = set()
-            vals = self.const_bool_fn("repr::heap_buffer::HeapBuffer::is_len_on_heap")
+            vals = self.const_bool_fn(n)
             for s in cur:
-                for v in sorted(vals):
+                known = dict((a, b) for (a, b) in s.facts if not isinstance(a, int)).get("lenheap")
+                for v in sorted(vals if known is None else {known} & vals or {known}):
                     out.add(self._setfact(self._setfact(s, bb, v), "lenheap", v))
             finish(out)
             return
@@ -1138,20 +1198,21 @@ class Solver:
         if self_args and key and key in self.F.bodies:
             cb = self.F.bodies[key]
             i = self_args[0]
+            vk = self._view_kind(body, t, n)
             out = set()
             for s in cur:
                 s1 = s
                 # R1: access after release
-                if s.ref in ("rel", "notlast", "freed") and n not in VIEW_FNS and n != "repr::heap_buffer::HeapBuffer::reference_count":
+                if s.ref in ("rel", "notlast", "freed") and not vk and n != "repr::heap_buffer::HeapBuffer::reference_count":
                     self.ob("R1", body, site, line, False,
                             detail="%s called on the handle in state ref=%s: the buffer may already be freed or reallocated by another owner" % (n, s.ref))
                     out.add(s)
                     continue
-                elif n not in VIEW_FNS and n != "repr::heap_buffer::HeapBuffer::reference_count":
+                elif not vk and n != "repr::heap_buffer::HeapBuffer::reference_count":
                     self.ob("R1", body, site, line, True, how="handle owns its reference")
                 # contract obligations
-                if n in CONTRACTS:
-                    obn, pred = CONTRACTS[n]
+                if n in CONTRACTS or vk:
+                    obn, pred = CONTRACTS[n] if n in CONTRACTS else ("kind=" + {"H": "Heap", "S": "Static", "I": "Inline"}[vk], (lambda t, _k=vk: t.kind == _k))
                     good = pred(s)
                     self.ob("R-contract." + obn, body, site, line, good, how="state kind=%s uniq=%s" % (s.kind, s.uniq),
                             detail="%s requires %s; reachable state kind=%s uniq=%s ref=%s" % (n, obn, s.kind, s.uniq, s.ref))
@@ -1172,7 +1233,7 @@ class Solver:
                             detail="HeapBuffer::set_len in state uniq=%s len-on-heap=%s ref=%s" % (s.uniq, lh, s.ref))
                     if not good:
                         s1 = s._replace(uniq=True, ref="own")
-                if n in VIEW_FNS:
+                if vk:
                     out.add(s1)
                     continue
                 if n == "repr::Repr::make_shallow_clone::ref_count_overflow":
@@ -1271,6 +1332,18 @@ class Solver:
                 s = s._replace(facts=frozenset(f for f in s.facts if f[0] != bb))
             out.add(s)
         finish(out)
+
+    def _view_kind(self, body, t, n):
+        """a storage view of the handle: `as_heap_buffer(&self) -> &HeapBuffer` and friends, or any
+        local function from &Repr to a reference to one of the three buffer types (a generic
+        `view::<B>()`): which kind of storage it asserts -> 'H' | 'S' | 'I' | None"""
+        if n in VIEW_FNS:
+            return VIEW_FNS[n]
+        if t.get("local_key") and t.get("arg_tys") and not t["dest"]["p"] and len(t["arg_tys"]) == 1:
+            d = body.local_ty(t["dest"]["l"]).strip()
+            if base_type(t["arg_tys"][0]) == "repr::Repr" and d.startswith("&"):
+                return {"repr::heap_buffer::HeapBuffer": "H", "repr::static_buffer::StaticBuffer": "S", "repr::inline_buffer::InlineBuffer": "I"}.get(base_type(d))
+        return None
 
     def _uw(self):
         if not hasattr(self, "_uwname"):
